@@ -20,7 +20,7 @@ def gen(ch):
     k = ch.int(6, 10)
     subs = []
     for i in range(k):
-        P = dlgen.generate(ch, dlgen.Feat(min_numeric_domain=True, max_groups=4))
+        P = dlgen.generate(ch, dlgen.Feat(min_numeric_domain=True, max_groups=4, adts=True, ranges=True, disjunctions=True, multihead=True))
         for n in P.order:
             rel = P.rels[n]
             q = ch.weighted([(5, ""), (2, "btree"), (3, "brie")])
